@@ -30,7 +30,9 @@ def mods():
 
 
 def new_sid(tag='s'):
-    return '%s%05d-Pid%d-MiXed' % (tag.capitalize(), next(_sid_counter), os.getpid())     # mixed case on purpose: a sid is an opaque string
+    # mixed case and characters that URL-quoting, shells and case-folding treat specially, on purpose: a sid is an opaque string
+    # chosen by the client (anything that is a legal directory name)
+    return '%s%05d-Pid%d-MiXed=+%%41:~ \u00e9' % (tag.capitalize(), next(_sid_counter), os.getpid())
 
 
 class World:
